@@ -90,8 +90,67 @@ def inputs_for(name, tier):
         yield {"x": x, "y": y, "z": z, "f": f}
 
 
+def mechanism_part(run, tier):
+    """Branching.tla: the merge mechanism is model checked against native control flow for every well-nested event sequence
+    within the bounds; every closed sequence is then replayed through the real API and judged by BranchConf.tla."""
+    import os
+    from harness import tlc
+    maxlen = 5 if tier == "quick" else 6
+    with common.scratch("br_") as d:
+        cf = os.path.join(d, "gen.cfg")
+        open(cf, "w").write("SPECIFICATION Spec\nCONSTANT MaxLen = %d\nCONSTANT MaxDepth = 2\nINVARIANT Inv_Native\nINVARIANT Inv_NoSilentLoss\nINVARIANT EmitBeh\nCHECK_DEADLOCK FALSE\n" % maxlen)
+        res = tlc.run("Branching", cfg=cf, workers=12, heap="8g")
+    run.add_tlc(res, "Branching.tla: mechanism == native for all event sequences of length <= %d" % maxlen)
+    if res.violated:
+        run.violation({"stage": "design", "invariant": res.violated, "tlc_state": res.state, "summary": "Branching.tla: the transcribed merge mechanism differs from native control flow: %s" % res.state.get("hist")})
+        return
+    behs = [json.loads(json.loads(r)) for r in sorted(set(res.tagged("BEH")))]
+    if len(behs) > 30000:
+        behs = behs[::len(behs) // 30000 + 1]
+    progs = [{"id": "ev/%d" % i, "ign": False, "steps": [{"op": "cfevents", "events": b["hist"], "tag": "main"}], "meta": {}} for i, b in enumerate(behs)]
+    traces = common.run_programs({"P": 4099, "bitlength": 5, "resolution": 1}, progs)
+    pairs = []
+    for b, t in zip(behs, traces):
+        e = [x for x in t["events"] if x["op"] == "cfevents"][-1]
+        final = {"x": -99, "y": -99, "z": -99}
+        if e["out"] == "ok":
+            for n, leaf in zip(("x", "y", "z"), e["res"]):
+                final[n] = -99 if leaf["k"] == "none" else leaf["v"]
+        pairs.append({"id": t["id"], "model": b, "impl": {"raised": e["out"] != "ok", "exc": e["exc"], "final": final}})
+    run.evaluations += len(pairs)
+    run.traces += len(pairs)
+    run.notes.append("%d closed event sequences from Branching.tla replayed through the block API" % len(pairs))
+    for b in behs[:200]:
+        run.nontrivial.add(json.dumps(b["hist"]))
+    from concurrent.futures import ThreadPoolExecutor
+    chunks = [pairs[i:i + 3000] for i in range(0, len(pairs), 3000)]
+    with ThreadPoolExecutor(6) as ex:
+        results = list(ex.map(lambda ch: common._tlc_on_chunk("BranchConf", "BranchConf.cfg", {"pairs": ch}, 2, False, False, "3g"), chunks))
+    for ci, (ch, r) in enumerate(zip(chunks, results)):
+        run.add_tlc(r, "event sequences vs native #%d" % ci)
+        if r.violated:
+            pr = ch[int(r.state["tid"]) - 1]
+            run.violation({"stage": "events", "invariant": r.violated, "tlc_state": r.state, "cfg": {"P": 4099, "bitlength": 5, "resolution": 1},
+                           "program": next(p for p in progs if p["id"] == pr["id"]), "pair": pr,
+                           "summary": "%s for event sequence %s: code %s, native %s" % (r.violated, json.dumps(pr["model"]["hist"])[:300], pr["impl"], pr["model"]["nat"])})
+    if not run.violations:
+        with ThreadPoolExecutor(6) as ex:
+            dr = list(ex.map(lambda ch: common._tlc_on_chunk("BranchConf", "BranchConfDrift.cfg", {"pairs": ch}, 2, False, False, "3g"), chunks))
+        nd = 0
+        for ch, r in zip(chunks, dr):
+            run.states += r.distinct
+            if r.violated:
+                nd += 1
+                pr = ch[int(r.state["tid"]) - 1]
+                print("MODEL-DRIFT: %s: code %s vs Branching.tla err=%s vals=%s for %s" % (r.violated, pr["impl"], pr["model"]["err"], pr["model"]["vals"], json.dumps(pr["model"]["hist"])[:300]))
+        run.extra["branching_model_drift_chunks"] = nd
+
+
 def main(tier):
     run = common.Run("C09", tier)
+    mechanism_part(run, tier)
+    if run.violations:
+        return run.finish(RULE)
     cfg = {"P": 4099, "bitlength": 5, "resolution": 1}
     progs = []
     for ti, (name, prog) in enumerate(templates(tier)):
